@@ -16,7 +16,7 @@ EXTENDS Integers, Sequences, FiniteSets, TLC
 
 Ids == {1, 2}
 Cfgs == {"A", "B", "C"}          \* C has the same array shapes as A (grids, q-points, modes) but different data
-Quantities == {"modulus_adiabatic", "modulus_isothermal", "tp_bulk_vrh", "tp_vp", "tp_volumes", "compliances"}
+Quantities == {"modulus_adiabatic", "modulus_isothermal", "tp_modulus_adiabatic", "tp_modulus_isothermal", "tp_bulk_vrh", "tp_vp", "tp_volumes", "compliances"}
 Writes == {<<"tp", "cij">>, <<"tp", "bm_VRH">>, <<"tv", "p">>}
 Seeds == {"0", "1", "2", "random"}
 Cwds == {"empty", "junk", "dir_named_like_system", "shadow_data"}   \* shadow_data: entries named like the package's own data files
